@@ -465,3 +465,20 @@ def refreshed_id_stored(ctx):
               'refresh can succeed without storing the identifier returned by refresh_id in the key: when the tracing level changed '
               'the old identifier has just been deleted, and the key is left with an identifier the master key no longer knows',
               'every Ok(()) dominated by the store', rb.where())
+
+
+@rule('C17', 'identifiers-drawn-from-the-instance-rng', configs=('default', 'p256'))
+def identifiers_drawn_from_the_instance_rng(ctx):
+    """'distinct from all others': the markers of an identifier are drawn from the instance RNG, whose state advances with every
+    call (C16.rng-threading: the API passes the locked generator itself, never a copy of it)."""
+    from . import c16
+    c16.rng_threading(ctx)
+
+
+@rule('C17', 'refresh-atomic-on-the-tracing-state', configs=('default', 'p256'))
+def refresh_atomic_on_the_tracing_state(ctx):
+    """'Every issued user key is registered': refresh_id swaps the registered identifier before the key receives the new one;
+    nothing between the two may fail, or the master key forgets the identifier the key still carries (C10.atomic restricted to
+    refresh, key generation and refresh_id)."""
+    from . import c10
+    c10.atomic(ctx, only=r'primitives::refresh$|TracingSecretKey::refresh_id$|primitives::usk_keygen$', floor=3)
